@@ -55,6 +55,8 @@ func (edb *EventDb) addBurnTicket(burnTicket BurnTicket) error {
 	return nil
 }
 
+// mergeAddBurnTicket keeps every burn ticket of the block: tickets are distinct rows
+// (ethereum address, nonce) even when they share the event index.
 func mergeAddBurnTicket() *eventsMergerImpl[BurnTicket] {
-	return newEventsMerger[BurnTicket](TagAddBurnTicket, withUniqueEventOverwrite())
+	return newEventsMerger[BurnTicket](TagAddBurnTicket)
 }
